@@ -279,7 +279,7 @@ func (g *Gen) c04gen(i int, ntypes int, hookFaults bool) *recGen {
 		rg.namers = []string{"public", "extra"}
 	}
 	rg.fileType = g.Pick([]string{"rec", "rec", "rec", "rec", "rec2", "", "nope"})
-	rg.fileName = g.Pick([]string{"a.go", "a.go", "b.go", "c.txt"})
+	rg.fileName = g.Pick([]string{"a.go", "a.go", "b.go", "c.txt", "sub/d.go", "sub/d.go"})
 	for k := g.R.Intn(3); k > 0; k-- {
 		rg.vars = append(rg.vars, fmt.Sprintf("v%d_%d = 1", i, k))
 	}
@@ -340,7 +340,11 @@ func (g *Gen) c04config(hookFaults bool) c04config {
 				t.filterL = append(t.filterL, ty)
 			}
 		}
-		for k := g.R.Intn(5); k > 0; k-- {
+		ngens := g.R.Intn(5)
+		if g.Chance(0.04) {
+			ngens = 13 + g.R.Intn(8) // more generators than a small-slice sort keeps in order
+		}
+		for k := ngens; k > 0; k-- {
 			t.gens = append(t.gens, g.c04gen(gi, ntypes, hookFaults))
 			gi++
 		}
@@ -441,6 +445,12 @@ func c04run(g *Gen, c c04config, entry string, cls []string) {
 			if gg.silent {
 				cls = append(cls, "silent-generator")
 			}
+			if strings.Contains(gg.fileName, "/") {
+				cls = append(cls, "file-name-with-directory")
+			}
+		}
+		if len(t.gens) >= 13 {
+			cls = append(cls, "thirteen-or-more-generators")
 		}
 	}
 	if len(c.fileTypes) == 0 {
